@@ -190,7 +190,7 @@ P("C18", level="proof", design_ref="7/C18", units=uniq(["U.api.create", "U.dep.i
        "injected clock exactly once and nothing else; polyseed_inject proved, from an arbitrary previous table, to copy every entry and to fall "
        "back to libc time/malloc/free exactly for NULL entries; goto-program scan: no direct call to any other external function.",
   note="The scan is of direct call targets before function-pointer removal; pointer calls must go through a polyseed_deps member.")
-P("C19", level="proof", design_ref="7/C19", both_chars=True, units=uniq(["U.str.nfkd_lazy", "B.str.nfkd_lazy", "U.api.crypt", "U.str.split"] + DEC + PHR + CMPU + CMPB + CMPF), engines=["tables"],
+P("C19", level="proof", design_ref="7/C19", both_chars=True, units=uniq(["U.str.nfkd_lazy", "B.str.nfkd_lazy", "U.api.crypt", "U.str.split"] + DEC + PHR + CMPU + CMPB + CMPF + ["U.api.encode", "U.str.write"]), engines=["tables"],
   technique='every char-sensitive CBMC unit (lazy NFKD, tokeniser, comparers: functional rule, safety, bounded shadows; decoders, crypt) and every closed word-list fact evaluated under both -fsigned-char and -funsigned-char against the same byte-value specification',
   text="Every unit that handles plain char (lazy NFKD, tokeniser, the four comparers: unbounded safety and bounded rule, both decoders, crypt, the "
        "phrase decoders) is verified under -fsigned-char and -funsigned-char against the same byte-value specification; all closed word-list facts (sortedness, search, acceptance rule) are "
